@@ -177,7 +177,7 @@ definitions = {
     'While': (
         CommentsAttr(),
         Text(value='while'), Space,
-        Text(value='('), Attr('predicate'), Text(value=')'), OptionalSpace,
+        Text(value='('), Attr('predicate'), Text(value=')'), Space,
         Attr('statement'),
     ),
     'Null': (
